@@ -51,6 +51,9 @@ def monitor(run):
 
 
 def replay(recipe):
+    if recipe.get('gen') == 'G-sim-naive-fractional-cpu':
+        run_ = S.SimRun(recipe).run()
+        return None, [dict(desc=d, signature='naive-contract', recipe=recipe) for d in list(monitor(run_))[:1]]
     return SP.replay(recipe, MASK, monitor, 'naive-contract')
 
 
@@ -59,6 +62,19 @@ def run(ctx):
         ('G-sim-naive', 220, 4000, dict(algo='naive')),
         ('G-sim-starter', 160, 3000, dict(algo='starter')),
     ])
+    # monitor-only stream: fractional CPU capacities (outside the integer-CPU domain of the model, so no
+    # correspondence case is produced; the monitor still judges the implementation)
+    nfrac = 0
+    for i in range(ctx.budget(40, 500)):
+        rng = ctx.case_rng('G-sim-naive-fractional-cpu', i)
+        recipe = S.gen_sim(rng, algo=rng.choice(['naive', 'starter']), gen='G-sim-naive-fractional-cpu')
+        recipe['cpu'] = rng.choice([1.5, 2.5, 3.25, 4.75])
+        run_ = S.SimRun(recipe).run()
+        nfrac += 1
+        for desc in monitor(run_):
+            out['hits'].append(dict(desc=desc, signature='naive-contract', recipe=recipe, gen='G-sim-naive-fractional-cpu'))
+            break
+    out['dist']['monitor_only_runs_fractional_cpu'] = nfrac
     out['rule'] = ('whole run_simulator runs with the naive scheduler and with the starter scheduler generated from the '
                    '`eudoxia init` template: 1-4 pools, small pools (OOM failures), DAG pipelines, both container modes, '
                    'bursts; compared per tick: decisions, results, free resources. non-trivial = runs with an assignment')
